@@ -232,8 +232,8 @@ class Neo4jCBMGraph(Neo4jPropertyGraph, ABCCBMPropertyGraph):
                                                               f'{delegations}')
                     # under normal circumstances we should erase the delegation after unmerge if
                     # it belonged to the graph being removed
-                    self.update_node_property(node_id=node, prop_name=del_prop,
-                                              prop_val='')
+                    # this was the only delegation on the node - the property goes away with it
+                    self.unset_node_property(node_id=node, prop_name=del_prop)
 
         # remove the merged nodes
         for node in delete_nodes:
